@@ -107,7 +107,7 @@ pub fn run(p: &Params) -> Report {
     let mine = p.share(total);
     let mut rng = Rng::new(p.shard_seed() ^ 0xC16);
     let mut mon = C16 { rep: Report::new("C16"), case_seed: 0 };
-    mon.rep.rule = "cases = sealed blocks of pool-heavy random histories (swaps, deposits incl. several per pool per block with equal and perfect-square amounts, withdrawals incl. withdraw-everything, one-sided floods, subsidies and pegging, 8-40 blocks, all genesis classes; plus histories in which a user creates the ERG/SYM pool before the rules enable the built-in one and empties it again before or after the activation); after every seal the built-in pools must exist with both reserves non-zero, every entry of the pools tree must be a pool some transaction named, and for every pool the liquidity tokens summed over all unspent coins must not exceed its recorded liqs. Non-trivial = block with at least one pool request; distinct by height and member hashes".into();
+    mon.rep.rule = "cases = sealed blocks of pool-heavy random histories (swaps, deposits incl. several per pool per block with equal and perfect-square amounts, withdrawals incl. withdraw-everything, one-sided floods, subsidies and pegging, 8-40 blocks, all genesis classes, one history in six with mostly huge amounts; plus histories in which a user creates the ERG/SYM pool before the rules enable the built-in one and empties it again before or after the activation); after every seal the built-in pools must exist with both reserves non-zero, every entry of the pools tree must be a pool some transaction named, and for every pool the liquidity tokens summed over all unspent coins must not exceed its recorded liqs. Non-trivial = block with at least one pool request; distinct by height and member hashes".into();
     if p.only_case.is_none() {
         mon.rep.require("sealed blocks", p.n(2500, 50000));
         mon.rep.require("pool/liquidity-token backings checked with tokens outstanding", p.n(500, 10000));
@@ -139,6 +139,11 @@ pub fn run(p: &Params) -> Report {
         let mut w = World::random(case_seed);
         w.profile = Profile { normal: 10, newcustom: 6, faucet: 6, swap: 24, deposit: 26, withdraw: 20, stake: 1, doscmint: 1, hostile: 5, odd_spelling_permille: 60, wrong_kind_permille: 40, dependent_permille: 300, max_batch: 8, big_values_permille: 100, degenerate_permille: 60, fast_mint_permille: 0, crowd_permille: 0 };
         w.twin_deposits = case % 2 == 0;
+        if case % 6 == 3 {
+            // whales: amounts near their caps or log-uniform up to 2^120 against small or lopsided reserves
+            w.profile.big_values_permille = 800;
+            mon.rep.count("whale histories");
+        }
         let blocks = 8 + (case % 33) as usize;
         run_history(&mut w, blocks, &mut [&mut mon]);
     }
